@@ -238,6 +238,17 @@ def make_dataset(recipe, winds=True):
             if name in ds.variables:
                 ds[name].attrs.update(a)
         ds.attrs["source"] = "verif recipe"
+    ga = recipe.get("global_attrs")
+    if ga:
+        # global attributes as datasets carry them after a life in other tools / other file conventions
+        ds.attrs.update({
+            "cf": {"Conventions": "CF-1.6", "title": "wave spectra", "institution": "verif", "history": "2020-01-01 created"},
+            "acdd": {"Conventions": "CF-1.8, ACDD-1.3", "product_name": "spectra", "geospatial_lat_min": -90.0, "geospatial_lat_max": 90.0,
+                     "time_coverage_start": "2020-01-01T00:00:00Z", "southernmost_latitude": -30.0, "northernmost_latitude": -25.0,
+                     "westernmost_longitude": 150.0, "easternmost_longitude": 155.0},
+            "model": {"Conventions": "WAVEWATCH III", "product_name": "ww3.202001_spec.nc", "area": "global", "start_date": "2020-01-01 00:00:00",
+                      "stop_date": "2020-01-02 00:00:00", "field_type": "hourly", "format_version": "1.1"},
+        }[ga])
     return ds
 
 
